@@ -69,6 +69,12 @@ def inputs(rng, thorough):
     keep = [l for l in t4.splitlines() if structures.is_atom(l) and l[17:20] != "HOH" and (l[21] == "A" or l[17:20] == "MTX")]
     keep = [(l[:21] + "A" + " 900" + l[26:]) if (l[17:20] == "MTX" and l[21] == "B") else l for l in keep]
     out.append(("4DFR chain A with both methotrexates as chain A (161 and 900)", "\n".join(keep) + "\nEND\n"))
+    # two models of a complex: as deposited, and with the second chain pulled 8 A away (interface groups are buried in one model, exposed in
+    # the other: their heavy-atom counts lie on different sides of the limits of the buried-fraction ramp)
+    sg = "\n".join(l for l in structures.read("3SGB-subset.pdb").splitlines() if structures.is_atom(l) or l[:3] == "TER") + "\n"
+    from decimal import Decimal
+    apart = structures.map_atoms(sg, lambda l: structures.set_xyz(l, structures.get_xyz(l)[0] + Decimal("8.0"), structures.get_xyz(l)[1], structures.get_xyz(l)[2]) if l[21] == "I" else l)
+    out.append(("3SGB-subset: model 1 as deposited, model 2 with chain I pulled 8 A away", structures.as_models([sg, apart])))
     if thorough:
         out.append(("4DFR.pdb", structures.read("4DFR.pdb")))
     return out, fr
@@ -170,6 +176,8 @@ def run(chk: common.Check):
         for c in names:
             seen = {}
             for at in mol.conformations[c].atoms:
+                if at.element == "H":
+                    continue          # constructed hydrogens carry no insertion code
                 k = (at.chain_id, at.res_num, at.icode)
                 if seen.setdefault(k, at.res_name) != at.res_name:
                     found.append(("top-up-merges-residue-types", f"{name}: conformation {c} has atoms of {seen[k]} and {at.res_name} in residue {k}",
